@@ -948,11 +948,15 @@ def conflicting_fields(sm, case):
 
     # a field of an abstract parent against a different field below one of its possible object types
     def abstract_leafpred(s, p):
-        return leafpred(s, p) and S.kind_of(sm, p) == "interface"
+        return s[0] == "f" and p is not None and S.kind_of(sm, p) == "interface" and s[5] is None and s[1] in S.fields_of(sm, p)
 
     for c, lst, i, parent, s in _positions(sm, case, abstract_leafpred):
         for obj in S.possible_types(sm, parent):
             other = [f for f in _leaf_fields(sm, obj) if f != s[1]]
+            # prefer a field of the same declared type: then only the name differs
+            want = S.fields_of(sm, parent)[s[1]]["type"]
+            same = [f for f in other if S.fields_of(sm, obj)[f]["type"] == want]
+            other = same or other
             if other:
                 lst.append(O.I(obj, [O.F(other[-1], alias=O.response_key(s))]))
                 yield "conflicting-fields:different-fields:object-in-abstract", c
